@@ -41,7 +41,7 @@ func plainWrites(scripts ...*chain.Script) {
 }
 
 func genOp(t *rapid.T) chain.Op {
-	switch rapid.IntRange(0, 12).Draw(t, "op") {
+	switch rapid.IntRange(0, 13).Draw(t, "op") {
 	case 0, 1, 2:
 		return chain.Op{K: chain.OpStatus, N: codeGen.Draw(t, "code")}
 	case 3, 4, 5:
@@ -62,6 +62,9 @@ func genOp(t *rapid.T) chain.Op {
 		return chain.Op{K: chain.OpHTTPError, N: rapid.SampledFrom([]int{400, 404, 500}).Draw(t, "ecode"), S: rapid.StringMatching(`[a-z]{0,5}`).Draw(t, "emsg")}
 	case 10:
 		return chain.Op{K: chain.OpRedirect, N: rapid.SampledFrom([]int{301, 302, 307}).Draw(t, "rcode"), S: "/" + rapid.StringMatching(`[a-z]{0,3}`).Draw(t, "rurl")}
+	case 12:
+		// the handler keeps a copy of its context for a background job, or wraps the response writer
+		return chain.Op{K: rapid.SampledFrom([]chain.OpKind{chain.OpCopy, chain.OpWrapResp}).Draw(t, "copyOrWrap")}
 	case 11:
 		// a response helper: status and content type, and the data - which may be empty ("only write headers")
 		return chain.Op{K: chain.OpBlob, N: rapid.SampledFrom([]int{200, 201, 404, 500}).Draw(t, "blobStatus"), S: rapid.SampledFrom([]string{"", "", "blob"}).Draw(t, "blobData")}
